@@ -240,6 +240,32 @@ def task_zero_com_angular(ctx):
             ctx.prove_eq("L' = L - I (X L) [%d]" % a, L1[a], want, pc=p.pc, shape="atoms=2", replay=replay_zero_com_angular)
 
 
+def replay_fresh_temperature(model):
+    """real code: a plain NVE driver on water with remove_com=('angular', 10): the kinetic temperature of the freshly drawn
+    velocities, measured with the run's own degrees of freedom (3N - 6), must be the target."""
+    import io, contextlib, os, tempfile, shutil
+    import torch
+    from seqm.seqm_functions.constants import Constants
+    from seqm.Molecule import Molecule
+    import seqm.MolecularDynamics as M
+
+    torch.set_default_dtype(torch.float64)
+    d = tempfile.mkdtemp(prefix="pyvc_c13_")
+    try:
+        params = {"method": "AM1", "scf_eps": 1e-7, "scf_converger": [1], "sp2": [False, 1e-5], "elements": [0, 1, 8], "learned": [], "pair_outer_cutoff": 1e10, "eig": True}
+        mol = Molecule(Constants(), params, torch.tensor([[[0.0, 0, 0], [0.96, 0.05, 0], [-0.24, 0.93, 0.02]]]), torch.tensor([[8, 1, 1]]))
+        md = M.Molecular_Dynamics_Basic(seqm_parameters=params, timestep=0.5, Temp=300.0, output={"molid": [0], "prefix": os.path.join(d, "md"), "print every": 0, "checkpoint every": 0, "xyz": 0, "h5": {}})
+        with contextlib.redirect_stdout(io.StringIO()):
+            torch.manual_seed(4)
+            md.initialize(mol, remove_com=("angular", 10))
+        mass = 1.0 / mol.mass_inverse
+        ek = float(0.5 * (mass * mol.velocities ** 2).sum() * M.CONSTANTS.KINETIC_ENERGY_SCALE)
+        T = 2.0 * ek / 3.0 * M.CONSTANTS.TEMPERATURE_SCALE  # 3N - 6 = 3 degrees of freedom
+        return {"reproduced": abs(T - 300.0) > 1e-6, "kinetic_temperature_K": T, "target_K": 300.0, "degrees_of_freedom": 3}
+    finally:
+        shutil.rmtree(d, ignore_errors=True)
+
+
 def task_initialize_velocity(ctx):
     """O1/O4: fresh velocities realise exactly the requested temperature; user-supplied velocities are used as given."""
     ctx.under_contract(MD + ":Molecular_Dynamics_Basic.initialize_velocity", stubs=["torch.linalg.pinv (assumed contract)"])
@@ -274,7 +300,7 @@ def task_initialize_velocity(ctx):
             n_ok += 1
             md, mol, T, draws = p.value
             if clause == "temperature":
-                ctx.prove_eq("fresh.temperature-is-exactly-Temp@p%d" % p.path_id, T.a[0], md.Temp, pc=p.pc, shape="atoms=2; angular correction abstracted")
+                ctx.prove_eq("fresh.temperature-is-exactly-Temp@p%d" % p.path_id, T.a[0], md.Temp, pc=p.pc, shape="atoms=2; angular correction abstracted", replay=replay_fresh_temperature)
                 if len(draws) == 1 and draws[0][0] == "randn":
                     ctx.ok("fresh.one-normal-draw-per-component@p%d" % p.path_id, "ghost-rng")
                 else:
